@@ -144,12 +144,28 @@ class Observer:
 
 
 def classify(run, disc):
-    """Tight predicates over the witness; anything they do not recognise stays unclassified."""
+    """Tight predicates over the witness; anything they do not recognise stays unclassified.
+    Several known mechanisms may act in one run: the storage the inner-level mechanisms (2) predict is taken
+    off first, what remains must be explained completely by (1) or (3)."""
     close = lambda a, b: abs(a - b) <= 1e-9 * max(1.0, abs(a), abs(b))
+    # (2) inner levels of stacked locations that get no storage back (two mechanisms of _free_resources)
+    multi, deep = run.ledger.inner_storage_residue()
+    amount = lambda d, ln, res: d.get(ln, {}).get(res[8:], 0.0) if res.startswith("storage:") else 0.0
+    rest, inner_label = [], None
+    for ln, res, got, exp in disc:
+        r = amount(multi, ln, res) + amount(deep, ln, res)
+        if r:
+            inner_label = inner_label or ("C11/stacked-multi-location-inner-storage-leak" if amount(multi, ln, res)
+                                          else "C11/deep-stack-inner-storage-leak")
+            if close(got - exp, r):
+                continue
+        rest.append([ln, res, got - r, exp])
     # (1) a release raised on a negative size that is pure float rounding residue (|x| < 1e-9) and every
-    #     discrepancy sits on a location of that job and is bounded by that job's own charge
-    neg = [e for e in run.exceptions if e[0] == "notify" and e[3] == "WorkflowExecutionException" and NEG.search(e[4])]
-    if neg and len(neg) == len(run.exceptions) and all(abs(float(NEG.search(e[4]).group(1))) < 1e-9 for e in neg):
+    #     remaining discrepancy sits on a location of that job and is bounded by that job's own charge
+    if run.exceptions:
+        neg = [e for e in run.exceptions if e[0] == "notify" and e[3] == "WorkflowExecutionException" and NEG.search(e[4])]
+        if not (neg and len(neg) == len(run.exceptions) and all(abs(float(NEG.search(e[4]).group(1))) < 1e-9 for e in neg)):
+            return None
         bound: dict = {}
         for rec in run.exc_charges:
             for ln, charge in rec["charges"]:
@@ -160,23 +176,15 @@ def classify(run, disc):
                     b["storage:" + mp] = b.get("storage:" + mp, 0.0) + s
                 if run.ledger.locs[ln]["cap"] is None:  # the code books a hardware-less location's storage on '/'
                     b["storage:/"] = b.get("storage:/", 0.0) + rec["disk_total"]
-        if all(ln in bound and abs(got - exp) <= bound[ln].get(res, 0.0) * (1 + 1e-9) + 1e-9 for ln, res, got, exp in disc):
+        if rest and all(ln in bound and abs(got - exp) <= bound[ln].get(res, 0.0) * (1 + 1e-9) + 1e-9 for ln, res, got, exp in rest):
             return "C11/float-rounding-negative-storage"
         return None
-    if run.exceptions:
-        return None
-    # (2) inner levels of stacked locations that get no storage back (two mechanisms of _free_resources)
-    multi, deep = run.ledger.inner_storage_residue()
-    if multi or deep:
-        amount = lambda d, ln, res: d.get(ln, {}).get(res[8:], 0.0)
-        if all(res.startswith("storage:") and close(got - exp, amount(multi, ln, res) + amount(deep, ln, res)) for ln, res, got, exp in disc):
-            ln, res = disc[0][0], disc[0][1]
-            return ("C11/stacked-multi-location-inner-storage-leak" if amount(multi, ln, res)
-                    else "C11/deep-stack-inner-storage-leak")
+    if not rest:
+        return inner_label
     # (3) k outer locations on one inner location: inner cores/memory charged k times, released once
-    if run.merged is not None:
+    if run.merged is not None and inner_label is None:
         want = {(ln, k): v[k] for ln, v in run.merged.leaked.items() for k in ("cores", "memory") if v[k]}
-        have = {(ln, res): got for ln, res, got, exp in disc}
+        have = {(ln, res): got for ln, res, got, exp in rest}
         if want and set(want) == set(have) and all(close(have[x], want[x]) for x in want):
             return "C11/shared-inner-requirement-merged"
     return None
